@@ -112,7 +112,7 @@ def variant_runs(engine, q_cases, t_cases):
 VARIANT_KINDS = {"range_malformed", "range_too_wide", "pos_below_lo", "first_occurrence_outside", "lower_bound_mismatch"}
 
 PLANS["C08"] = dict(
-    runs=variant_runs("static_comp", 500, 4000),
+    runs=variant_runs("static_comp", 1500, 4000),
     kinds=VARIANT_KINDS,
     rule="case = one CompressedPGMIndex<K,Eps,EpsRec,Floating> instantiation (EpsRec 0, small, 256 = binary-search routing; "
          "8..64-bit unsigned keys) x one generated sorted array (families of C01; 1/64 of the cases chunked, n >= 2^15) x the "
@@ -121,7 +121,7 @@ PLANS["C08"] = dict(
     assumptions=ASSUME_COMMON,
 )
 PLANS["C09"] = dict(
-    runs=variant_runs("static_bucket", 500, 4000),
+    runs=variant_runs("static_bucket", 1500, 4000),
     kinds=VARIANT_KINDS | {"below_first_not_empty_at_0", "above_last_not_empty_at_n"},
     rule="case = one BucketingPGMIndex<K,Eps,TopLevelSize,TopLevelBitSize,Floating> instantiation (power-of-two and other "
          "table sizes, dynamic and fixed cell widths) x one sorted array (families of C01 plus keys on/around first+i*step "
@@ -130,7 +130,7 @@ PLANS["C09"] = dict(
     assumptions=ASSUME_COMMON,
 )
 PLANS["C10"] = dict(
-    runs=variant_runs("static_ef", 500, 4000),
+    runs=variant_runs("static_ef", 1500, 4000),
     kinds=VARIANT_KINDS,
     rule="case = one EliasFanoPGMIndex<K,Eps,Floating> instantiation (16..64-bit keys) x one sorted array (families of C01 "
          "plus segment-key sets of chosen density so that the Elias-Fano low-bit width varies; the widths seen are counted) "
@@ -148,7 +148,7 @@ def seg_runs(prop, q, t):
 
 
 PLANS["C03"] = dict(
-    runs=seg_runs("C03", 1500, 12000),
+    runs=seg_runs("C03", 3000, 12000),
     kinds={"returned_count_mismatch", "recorder_scopes", "recorded_points_not_increasing", "missing_key_point", "missing_closing_point",
            "segments_not_increasing", "partition_broken", "residual_exceeds_epsilon"},
     rule="case = one call of make_segmentation_par for one key type (u8..i64, float, double), one epsilon in {0,1,2,3,4,8,16,64,"
@@ -162,7 +162,7 @@ PLANS["C03"] = dict(
     technique="runtime monitoring: hooked event recorder (points fed to the builder) + exact rational oracle over generated inputs, under AddressSanitizer",
 )
 PLANS["C04"] = dict(
-    runs=lambda tier: seg_runs("C04", 1200, 8000)(tier) + [R("static_pgm", "asan", 150 if tier == "quick" else 1500)],
+    runs=lambda tier: seg_runs("C04", 2000, 8000)(tier) + [R("static_pgm", "asan", 150 if tier == "quick" else 1500)],
     kinds={"segment_infeasible", "segment_not_maximal", "segment_starts_too_close", "too_many_nonmaximal_segments",
            "segment_count_not_minimal", "segments_count_bound", "level_size_bound", "height_bound", "partition_broken",
            "segments_not_increasing", "recorded_points_not_increasing", "recorder_scopes", "returned_count_mismatch"},
@@ -190,7 +190,7 @@ DYN_RULE = ("case = one DynamicPGMIndex<K,V,PGMType> instantiation (8: u16..i64 
             "insert_or_assign / erase operations from 7 patterns (random on small key spaces, ascending, descending, "
             "insert-all-then-erase-all, erase-only, tombstone shadowing script, hot keys), keys at lowest() and max-1; ")
 PLANS["C05"] = dict(
-    runs=dyn_runs(250, 1500),
+    runs=dyn_runs(800, 2000),
     kinds={"find_mismatch", "count_mismatch", "lower_bound_mismatch"},
     rule=DYN_RULE + "observation = find / count / lower_bound of probe keys (keys of the history +-1, extremes, random) against std::map "
          "after every one of the first ops, then every 5th/7th, full probe at the end; non-trivial = the history merged into "
@@ -199,7 +199,7 @@ PLANS["C05"] = dict(
     technique="runtime monitoring: history + executable sequential model (std::map) checked at every observation, under AddressSanitizer",
 )
 PLANS["C06"] = dict(
-    runs=dyn_runs(250, 1500),
+    runs=dyn_runs(800, 2000),
     kinds={"iteration_mismatch", "iteration_does_not_terminate", "iteration_too_short", "range_mismatch", "size_mismatch", "empty_mismatch"},
     rule=DYN_RULE + "observation = full begin()..end() walk, walks from lower_bound(k) for probe keys incl. the largest key and "
          "keys above it, range(lo,hi) for probe pairs / whole space / single key compared in both directions, size(), empty(), "
@@ -209,7 +209,7 @@ PLANS["C06"] = dict(
     technique="runtime monitoring: history + executable sequential model (std::map) checked at every observation, under AddressSanitizer",
 )
 PLANS["C15"] = dict(
-    runs=dyn_runs(250, 1500),
+    runs=dyn_runs(800, 2000),
     kinds={"lsm_invariant"},
     rule=DYN_RULE + "after the bulk-load and after EVERY update the private state is read through the friend accessor (hook H3): "
          "levels strictly sorted, buffer / level capacities, nothing beyond used_levels, every non-empty level >= index level owns "
@@ -234,7 +234,7 @@ MAPPED_RULE = ("case = one MappedPGMIndex<K,Eps,EpsRec> instantiation (12: i16..
                "front of a PROT_NONE guard page) x the five objects {from range, from raw file, reopen A, reopen B, reopen A "
                "again} constructed in a random valid order and alive simultaneously; ")
 PLANS["C11"] = dict(
-    runs=mapped_runs(200, 1500),
+    runs=mapped_runs(600, 2000),
     kinds={"lower_bound_mismatch", "upper_bound_mismatch", "count_mismatch", "contains_mismatch", "exposed_sequence_differs"},
     rule=MAPPED_RULE + "oracle: lower_bound / upper_bound / count / contains vs the std algorithms on the source vector for the "
          "full query set of C02, begin()/end()/size() expose exactly the sequence; non-trivial = a run longer than 2eps+2 and >= 1 "
@@ -242,7 +242,7 @@ PLANS["C11"] = dict(
     assumptions=ASSUME_COMMON,
 )
 PLANS["C12"] = dict(
-    runs=mapped_runs(200, 1500),
+    runs=mapped_runs(600, 2000),
     kinds={"files_differ", "reopen_altered_file", "header_fields_differ", "sequence_differs", "answers_differ_between_objects"},
     rule=MAPPED_RULE + "oracle: bytes(A) == bytes(B); bytes, size and mtime of a file unchanged by every reopen; n, first_key, "
          "levels_offsets, segments, size(), file size identical across the five objects (read through a subclass); all query "
@@ -263,7 +263,7 @@ MD_RULE = ("case = one MultidimensionalPGMIndex<D,T,Eps,EpsRec> instantiation (1
            "one point multiset (dense grids with duplicates, sparse uniform, coordinates at the encoder's maximum, clusters, "
            "points on a line, tiny sets; n <= 5000) ")
 PLANS["C13"] = dict(
-    runs=md_runs(250, 1500),
+    runs=md_runs(800, 2500),
     kinds={"point_outside_box", "not_in_morton_order", "range_does_not_terminate", "range_result_mismatch"},
     rule=MD_RULE + "x 24/40 boxes (full space, single cells, one-cell slabs, stored corners, boxes reaching the largest stored "
          "point, thin boxes that force the Z-order skip); oracle: brute force over the multiset (multiplicities), codes "
@@ -272,7 +272,7 @@ PLANS["C13"] = dict(
     assumptions=ASSUME_COMMON,
 )
 PLANS["C14"] = dict(
-    runs=md_runs(250, 1500),
+    runs=md_runs(800, 2500),
     kinds={"contains_mismatch"},
     rule=MD_RULE + "x membership probes: every stored point (capped), its axis neighbours, the origin, the maximum point, points "
          "just above the largest stored code, random encodable points; oracle: multiset membership; non-trivial = absent points "
@@ -282,7 +282,7 @@ PLANS["C14"] = dict(
 
 
 PLANS["C19"] = dict(
-    runs=lambda tier: [R("copymove", "asan", 210 if tier == "quick" else 4200)],
+    runs=lambda tier: [R("copymove", "asan", 630 if tier == "quick" else 6300)],
     kinds={"copy_answers_differ", "asan_report"},
     rule="case = one class instantiation (15: PGMIndex x3, CompressedPGMIndex x3 incl. eps_rec 0 and 256, BucketingPGMIndex x2, "
          "EliasFanoPGMIndex x2, MultidimensionalPGMIndex x2, DynamicPGMIndex x3 with arithmetic / std::string / pointer values) "
@@ -322,7 +322,7 @@ PLANS["C20"] = dict(
 
 
 PLANS["C18"] = dict(
-    runs=lambda tier: ([R("cinterface", "asan", 400), R("cinterface", "v3", 400)] if tier == "quick" else
+    runs=lambda tier: ([R("cinterface", "asan", 1000), R("cinterface", "v3", 1000)] if tier == "quick" else
                        [R("cinterface", "asan", 4000), R("cinterface", "rel", 8000), R("cinterface", "v3", 8000)]),
     kinds={"range_malformed", "range_too_wide", "pos_below_lo", "first_occurrence_outside", "lower_bound_mismatch",
            "c_create_accepted_reserved_value", "c_create_returned_null", "c_dynamic_create_returned_null", "c_iteration_mismatch",
@@ -366,7 +366,7 @@ def conc_evidence(tasks, summaries):
 
 
 PLANS["C16"] = dict(
-    runs=lambda tier: [R("concurrent", "tsan", 12 if tier == "quick" else 120, post=tsan_post, shards=16)],
+    runs=lambda tier: [R("concurrent", "tsan", 24 if tier == "quick" else 160, post=tsan_post, shards=16)],
     kinds={"tsan_report", "concurrent_result_differs"},
     rule="case = one shared object (16 instantiations: PGMIndex x4 incl. binary-search routing and floating keys, Compressed x2, "
          "Bucketing x2, Elias-Fano x2, Mapped x2 (created / reopened), Multidimensional x2, Dynamic x3 with arithmetic / string / "
